@@ -64,6 +64,7 @@ class Monitor:
         self.arrays = []     # [label, array, digest, base, base digest]
         self.held = []       # [label, funsor, snapshot]
         self.dicts = []      # [label, dict, snapshot]
+        self.attr_db = {}    # id(term) -> (term, {attribute path: digest})
 
     # ---- arrays --------------------------------------------------------------------------------
     def register(self, a, label="arr", layouts=False):
@@ -100,8 +101,39 @@ class Monitor:
 
     def hold(self, f, label="f"):
         if isinstance(f, Funsor):
-            self.held.append([label, f, snap(f, {})])
+            materialise(f)       # cached derived attributes exist *before* later operations run
+            cache = {}
+            self.held.append([label, f, snap(f, {}), sig(f, cache)])
+            self.attr_scan([f], cache)
         return f
+
+    def attr_scan(self, roots, cache=None):
+        """Grow-only snapshot of every ndarray reachable through `__dict__` of every term reachable from
+        `roots` (sub-terms via _ast_values, funsor-valued cached attributes such as log_normalizer,
+        lazy_property caches once materialised).  A new attribute is recorded; a recorded one must keep
+        its bytes.  Returns [(description)] for the ones that changed."""
+        out = []
+        seen = set()
+        cache = {} if cache is None else cache
+        for t in reachable_terms(roots, seen):
+            rec = self.attr_db.get(id(t))
+            if rec is None or rec[0] is not t:
+                rec = self.attr_db[id(t)] = (t, {})
+            known = rec[1]
+            for name, val in list(vars(t).items()):
+                if name in _SKIP_ATTRS or not isinstance(val, (np.ndarray, tuple, list, dict)):
+                    continue
+                for path, arr in arrays_in(name, val):
+                    d = cache.get(("a", id(arr)))
+                    if d is None:
+                        d = cache[("a", id(arr))] = digest(arr)
+                    old = known.get(path)
+                    if old is None:
+                        known[path] = d
+                    elif old != d:
+                        out.append(f"{type(t).__name__}.{path}: cached/derived array changed")
+                        known[path] = d
+        return out
 
     def hold_dict(self, d, label="dict"):
         self.dicts.append([label, d, tuple((k, str(v)) for k, v in d.items())])
@@ -118,25 +150,118 @@ class Monitor:
                 out.append((label, "base of leaf array changed outside the view"))
             if self.mode == "ro" and (a.flags.writeable or base.flags.writeable):
                 out.append((label, "read-only flag of a leaf array was cleared"))
+        cache = {}
         for rec in self.held:
-            label, f, s = rec
+            label, f, s, sg = rec
             try:
-                s2 = snap(f, {})
+                sg2 = sig(f, cache)
             except Exception as e:       # a term that can no longer be inspected has been damaged
-                s2 = ("unsnappable", type(e).__name__, str(e)[:100])
-            if s2 != s:
+                sg2 = "unsnappable:" + type(e).__name__
+            if sg2 != sg:
+                try:
+                    s2 = snap(f, {})
+                except Exception as e:
+                    s2 = ("unsnappable", type(e).__name__, str(e)[:100])
                 out.append((label, "held funsor changed: " + first_diff(s, s2)))
+        for what in self.attr_scan([rec[1] for rec in self.held], cache):
+            out.append(("attr", what))
         for rec in self.dicts:
             label, d, s = rec
             if tuple((k, str(v)) for k, v in d.items()) != s:
                 out.append((label, "user-supplied inputs dict changed"))
         return out
 
-    def trim(self, keep=400):
+    def trim(self, keep=300):
         if len(self.held) > keep:
             self.held = self.held[-keep:]
         if len(self.arrays) > 4 * keep:
             self.arrays = self.arrays[-4 * keep:]
+        live = {id(t) for t in reachable_terms([rec[1] for rec in self.held], set())}
+        self.attr_db = {k: v for k, v in self.attr_db.items() if k in live}
+
+    def rebaseline(self):
+        for rec in self.arrays:
+            rec[2] = digest(rec[1])
+            rec[4] = digest(rec[3])
+        cache = {}
+        for rec in self.held:
+            try:
+                rec[2] = snap(rec[1], {})
+                rec[3] = sig(rec[1], cache)
+            except Exception:
+                pass
+        self.attr_db = {}
+        self.attr_scan([rec[1] for rec in self.held])
+
+
+_LAZY_NAMES = {}
+# attributes that are snapshotted structurally by sig()/snap() already (or hold no arrays)
+_SKIP_ATTRS = frozenset(["inputs", "output", "fresh", "bound", "_ast_values", "input_vars", "name", "op"])
+
+
+def materialise(f):
+    """Touch every lazy_property of the term's class (Gaussian _mean/_precision/_covariance/…,
+    log_normalizer, input_vars) so that the cache exists before later operations could write into it."""
+    import inspect
+    from funsor.util import lazy_property
+    for t in reachable_terms([f], set()):
+        cls = type(t)
+        names = _LAZY_NAMES.get(cls)
+        if names is None:
+            names = []
+            for n in dir(cls):
+                try:
+                    if isinstance(inspect.getattr_static(cls, n), lazy_property) and n != "__annotations__":
+                        names.append(n)
+                except AttributeError:
+                    pass
+            _LAZY_NAMES[cls] = names
+        for n in names:
+            if n in vars(t):
+                continue
+            try:
+                with np.errstate(all="ignore"):
+                    getattr(t, n)
+            except Exception as e:
+                if is_readonly_error(e):
+                    raise
+
+
+def reachable_terms(roots, seen):
+    todo = list(roots)
+    while todo:
+        x = todo.pop()
+        if isinstance(x, Funsor):
+            if id(x) in seen:
+                continue
+            seen.add(id(x))
+            yield x
+            todo.extend(getattr(x, "_ast_values", ()))
+            for n, v in vars(x).items():
+                if n not in _SKIP_ATTRS and isinstance(v, (Funsor, tuple, dict)):
+                    todo.append(v)
+        elif isinstance(x, (tuple, list, frozenset)):
+            todo.extend(v for v in x if isinstance(v, (Funsor, tuple, list, frozenset, dict)))
+        elif isinstance(x, dict):
+            todo.extend(v for v in x.values() if isinstance(v, (Funsor, tuple, list, frozenset, dict)))
+
+
+def arrays_in(name, val, depth=0):
+    if isinstance(val, np.ndarray):
+        yield name, val
+    elif depth < 2 and isinstance(val, (tuple, list)):
+        for i, v in enumerate(val):
+            yield from arrays_in(f"{name}[{i}]", v, depth + 1)
+    elif depth < 2 and isinstance(val, dict):
+        for k, v in val.items():
+            yield from arrays_in(f"{name}[{k!r}]", v, depth + 1)
+
+
+class MutationObserved(Exception):
+    def __init__(self, history, changed):
+        super().__init__(f"mutation after {history[-1] if history else '?'}")
+        self.history = history
+        self.changed = changed
 
 
 def first_diff(a, b, path=""):
@@ -150,6 +275,38 @@ def first_diff(a, b, path=""):
                 return first_diff(x, y, f"{path}/{i}")
         return f"{path}: ?"
     return f"{path}: {str(a)[:80]} -> {str(b)[:80]}"
+
+
+def sig(x, cache):
+    """Short signature of everything `snap` records; `cache` (one per check) memoises per object id so a
+    sub-term or array shared by many held terms is hashed once."""
+    if isinstance(x, Funsor):
+        k = id(x)
+        h = cache.get(k)
+        if h is None:
+            cache[k] = "cycle"
+            parts = [type(x).__name__, repr([(n, str(d)) for n, d in x.inputs.items()]), str(x.output),
+                     repr(sorted(map(str, x.fresh))), repr(sorted(map(str, x.bound)))]
+            parts += [sig(v, cache) for v in getattr(x, "_ast_values", ())]
+            h = cache[k] = hashlib.blake2b("|".join(parts).encode(), digest_size=12).hexdigest()
+        return h
+    if isinstance(x, np.ndarray):
+        k = ("a", id(x))
+        h = cache.get(k)
+        if h is None:
+            h = cache[k] = digest(x)
+        return "A" + h
+    if isinstance(x, tuple):
+        return "T(" + ",".join(sig(v, cache) for v in x) + ")"
+    if isinstance(x, frozenset):
+        return "S(" + ",".join(sorted(sig(v, cache) for v in x)) + ")"
+    if isinstance(x, (dict, OrderedDict)):
+        return "D(" + ",".join(str(k) + "=" + sig(v, cache) for k, v in x.items()) + ")"
+    if isinstance(x, (str, int, float, bool, type(None), np.generic)):
+        return "V" + type(x).__name__ + repr(x)
+    if isinstance(x, type):
+        return "Ty" + str(x)
+    return "O" + type(x).__name__ + (repr(x)[:120] if isinstance(x, ops.Op) else "")
 
 
 def snap(x, memo):
@@ -200,6 +357,7 @@ class B:
         if edge == "auto":
             edge = None if u < 0.5 else (v, d)
         self.edge = edge
+        self.history = []
         self.declined = 0
         self.evaluated = 0
         self.decl_kinds = {}
@@ -280,6 +438,16 @@ class B:
             return None
         self.evaluated += 1
         self.hold(r)
+        return r
+
+    def step(self, label, thunk):
+        """One operation of a multi-step history: evaluate, hold the result, then re-verify every
+        snapshot taken so far.  Raises MutationObserved with the history when something changed."""
+        self.history.append(label)
+        r = self.t(thunk)
+        bad = self.mon.check()
+        if bad:
+            raise MutationObserved(list(self.history), bad)
         return r
 
     def inputs(self, names_sizes):
@@ -1174,6 +1342,102 @@ def p_lazy_constructors(b):
     b.t(lambda: tape.adjoint(ops.logaddexp, ops.add, out, (c["aj"], c["a"])))
 
 
+@program
+def p_gaussian_histories(b):
+    """Multi-step histories on ONE Gaussian term: op A on g, then op B on g, …; after every step all
+    snapshots (leaf arrays, held results, cached derived arrays such as _mean/_precision) are re-verified
+    and g's observable values under a fixed probe are compared with the ones taken before the history."""
+    from funsor.approximations import (compute_argmax, argmax_approximate, mean_approximate,
+                                       laplace_approximate)
+    np.random.seed(b.rng.randrange(2 ** 31))
+    D = b.rng.choice([(2,), (3,), (2, 2), (), (2,)])
+    bat = b.rng.choice([[], [("i", 3)], [("i", 2)]])
+    two = b.rng.random() < 0.35
+    reals = [("x", D)] + ([("y", (2,))] if two else [])
+    g = b.gaussian(bat, reals)
+    other = b.gaussian([], [("x", D)])
+    x = Variable("x", Reals[D] if D else Real)
+    allreal = frozenset(n for n, _ in reals)
+    allvars = frozenset(Variable(n, Reals[sh] if sh else Real) for n, sh in reals)
+    probe = {n: b.tensor([], sh) for n, sh in reals}
+    t = b.tensor(bat, ()) if bat else None
+    with normalize:
+        appr = g.approximate(ops.logaddexp, g, allreal)
+    b.hold(appr)
+
+    def observe():
+        out = []
+        for th in (lambda: g(**probe).data, lambda: g.reduce(ops.logaddexp, allreal).data,
+                   lambda: compute_argmax(g, allvars)["x"].data, lambda: g._mean, lambda: g._precision,
+                   lambda: g.log_normalizer.data, lambda: Integrate(g, x, allvars).data if not two else None):
+            try:
+                with np.errstate(all="ignore"):
+                    v = th()
+                out.append(None if v is None else (np.asarray(v).shape, np.asarray(v).tobytes()))
+            except Exception as e:
+                if is_readonly_error(e):
+                    raise
+                out.append(("exc", type(e).__name__))
+        return out
+
+    def reint(interp):
+        with interp:
+            return reinterpret(appr)
+
+    steps = {
+        "Integrate(g, x, {x})": lambda: Integrate(g, x, allvars),
+        "Integrate(g, 2x+1, {x})": lambda: Integrate(g, x * 2.0 + 1.0, allvars),
+        "Integrate(g, other, {x})": lambda: Integrate(g, other, allvars),
+        "Integrate(g, g, {x})": lambda: Integrate(g, g, allvars),
+        "compute_argmax(g)": lambda: compute_argmax(g, allvars),
+        "argmax_approximate": lambda: reint(argmax_approximate),
+        "mean_approximate": lambda: reint(mean_approximate),
+        "laplace_approximate": lambda: reint(laplace_approximate),
+        "g.reduce(logaddexp, x)": lambda: g.reduce(ops.logaddexp, "x"),
+        "g.reduce(logaddexp)": lambda: g.reduce(ops.logaddexp, allreal),
+        "g(x=probe)": lambda: g(x=probe["x"]),
+        "g(x=affine)": lambda: g(x=Variable("w", Reals[D] if D else Real) * 2.0 + probe["x"]),
+        "g.sample(x)": lambda: g.sample(frozenset(["x"])),
+        "g.sample(all, particles)": lambda: g.sample(allreal, OrderedDict(particle=Bint[2])),
+        "g + other": lambda: g + other,
+        "g + g": lambda: g + g,
+        "g - log_normalizer": lambda: g - g.log_normalizer,
+        "MonteCarlo Integrate": lambda: _mc_integrate(g, x, allvars),
+    }
+    if bat:
+        n0 = bat[0][0]
+        def mm():
+            with moment_matching:
+                return (g + t).reduce(ops.logaddexp, n0)
+        steps["moment_matching reduce"] = mm
+        steps["g(i=0)"] = lambda: g(**{n0: 0})
+        steps["g.reduce(add, i)"] = lambda: g.reduce(ops.add, n0)
+    if two:
+        steps["g.reduce(logaddexp, y)"] = lambda: g.reduce(ops.logaddexp, "y")
+        steps["Integrate(g, y, all)"] = lambda: Integrate(g, Variable("y", Reals[2]), allvars)
+    obs0 = observe()
+    bad0 = b.mon.check()
+    if bad0:
+        raise MutationObserved(["observe g (probe substitution, mass, mode, first moment)"], bad0)
+    names = list(steps)
+    for _ in range(b.rng.randint(3, 8)):
+        label = b.rng.choice(names + ["Integrate(g, x, {x})", "compute_argmax(g)"])
+        b.step(label, steps[label])
+        obs = observe()
+        if obs != obs0:
+            which = [i for i, (u, v) in enumerate(zip(obs0, obs)) if u != v]
+            names_ = ["g(probe)", "log mass", "mode", "_mean", "_precision", "log_normalizer", "first moment"]
+            raise MutationObserved(list(b.history), [("observable", "value of g changed: " + ", ".join(names_[i] for i in which))])
+        bad = b.mon.check()
+        if bad:
+            raise MutationObserved(list(b.history) + ["observe g"], bad)
+
+
+def _mc_integrate(g, x, allvars):
+    with MonteCarlo(particle=Bint[3]):
+        return Integrate(g, x, allvars)
+
+
 def run_program(name, mon, rng, edge="auto"):
     """Run one program.  Returns (status, info): status in ok | declined | violation | harness-bug."""
     mon.rng = rng          # layout choices of this program's arrays come from its own PRNG (exact replay)
@@ -1182,6 +1446,8 @@ def run_program(name, mon, rng, edge="auto"):
     try:
         with np.errstate(all="ignore"):
             PROGRAMS[name](b)
+    except MutationObserved as e:
+        return "mutation", {"history": e.history, "changed": [f"{l}: {w}" for l, w in e.changed[:6]]}
     except Exception as e:
         msg = str(e)
         tb = traceback.extract_tb(e.__traceback__)
